@@ -780,6 +780,13 @@ def install(interp):
     nn = build_nn(interp, torch)
     torch.nn = nn
     TENSOR = I.StubClass('torch.Tensor', {})
+
+    def tensor_ctor(*a, **k):
+        # torch.Tensor(n) -> uninitialised float tensor of n elements (modelled as zeros); torch.Tensor(list) -> float tensor
+        if len(a) == 1 and isinstance(a[0], (list, tuple, Tensor)):
+            return Tensor.from_nested(a[0]).float()
+        return Tensor.full(_shape_args(a), 0.0)
+    TENSOR.make = tensor_ctor
     torch.Tensor = TENSOR
     torch.Size = tuple
     for d in ('float32', 'float', 'float64', 'double', 'int32', 'int64', 'int', 'long', 'bool', 'uint8', 'int8', 'float16', 'half'):
